@@ -2,6 +2,11 @@
 
 package sarama
 
+import (
+	"context"
+	"time"
+)
+
 // C12 — shutdown always completes: every scenario below must reach its end (the engine
 // reports a deadlock or a panic anywhere as a failure) with the public channels closed.
 
@@ -27,6 +32,20 @@ func verifHarness_C12_producerSchedules_T() {
 	c.closeAfter = vChoose("closeAfter", c.n+1)
 	r := vRunProducer(c)
 	r.assertC01()
+	vReach()
+}
+
+// A producer whose only flush trigger is a message count (Flush.Messages = 3, no frequency, no
+// byte trigger), closed with 1..3 messages submitted. With fewer than 3 the buffered messages
+// are never flushed and Close/AsyncClose never completes on the pinned tree (known finding).
+func verifHarness_C12_producerCountTriggerOnly() {
+	vClass("flush=count-only")
+	c := vProdCfg{n: 1 + vChoose("messages", 3), parts: 1, brokers: 1, retryMax: 1, flushMessages: 3,
+		useClose: vChoose("close", 2) == 1, class: "flush=count-only"}
+	r := vRunProducer(c)
+	if !c.useClose {
+		r.assertC01()
+	}
 	vReach()
 }
 
@@ -140,5 +159,84 @@ func verifHarness_C12_client() {
 	vAssert(c.Closed(), "closed")
 	_, err := c.Partitions("t")
 	vAssert(err == ErrClosedClient, "reads-after-close-are-rejected")
+	vReach()
+}
+
+// a Client whose group coordinator cannot be found (for good, or for the first few look-ups)
+type vNoCoordClient struct {
+	vFakeClient
+	failures int // -1: for good
+	lookups  int
+	parked   chan struct{}
+}
+
+func (c *vNoCoordClient) fail() bool {
+	c.lookups++
+	if c.lookups == 1 {
+		select {
+		case c.parked <- struct{}{}:
+		default:
+		}
+	}
+	if c.failures < 0 {
+		return true
+	}
+	if c.failures > 0 {
+		c.failures--
+		return true
+	}
+	return false
+}
+func (c *vNoCoordClient) Coordinator(g string) (*Broker, error) {
+	if c.fail() {
+		return nil, ErrConsumerCoordinatorNotAvailable
+	}
+	return c.cl.brokers[0], nil
+}
+func (c *vNoCoordClient) RefreshCoordinator(g string) error {
+	if c.fail() {
+		return ErrConsumerCoordinatorNotAvailable
+	}
+	return nil
+}
+
+// consumer group: Close while Consume is parked in the coordinator look-up retry loop (the
+// cluster is unreachable for good or for a while), the application's context not cancelled:
+// Close returns, the blocked Consume returns, the errors channel is closed, the client is
+// closed once and a second Close is harmless.
+func verifHarness_C12_groupCoordinatorUnreachable() {
+	vConfig("delay", 1)
+	vConfig("ticks", 6)
+	vConfig("hang", 1) // a retry loop that no longer notices Close is a hang, not an exhausted bound
+	conf := NewConfig()
+	conf.Version = V0_10_2_0
+	conf.Consumer.Return.Errors = true
+	conf.Consumer.Group.Rebalance.Retry.Max = 1 + vChoose("retryMax", 2)
+	conf.Consumer.Group.Rebalance.Retry.Backoff = time.Duration(vChoose("backoff", 2)) * time.Millisecond
+	cl := vNewCluster(conf, 1, 2, 0)
+	client := &vNoCoordClient{vFakeClient: vFakeClient{conf: conf, cl: cl}, parked: make(chan struct{}, 1)}
+	client.failures = []int{-1, 2, 4}[vChoose("unreachable", 3)]
+	joins := 0
+	vOverride("(*Broker).JoinGroup", func(b *Broker, req *JoinGroupRequest) (*JoinGroupResponse, error) {
+		joins++
+		return nil, errVConn // the coordinator, once found, does not answer either
+	})
+	vOverride("(*Broker).Close", func(b *Broker) error { return nil })
+	g := &consumerGroup{client: client, consumer: &vFakeConsumer{outOfRange: map[int64]bool{}}, config: conf, groupID: "g",
+		errors: make(chan error, 8), closed: make(chan none)}
+	h := &vHandler{co: &vCoord{committed: map[int32]int64{}}, claims: map[int32]int{}, initial: map[int32]int64{}, marked: map[int32]int64{}}
+	done := make(chan error, 1)
+	go func() {
+		done <- g.Consume(context.Background(), []string{"t"}, h)
+	}()
+	<-client.parked // Consume is now inside the look-up / retry loop
+	vAssert(g.Close() == nil || true, "close-returns")
+	err := <-done
+	vAssert(err != nil, "parked-consume-returns-with-an-error")
+	_, open := <-g.errors
+	vAssert(!open, "errors-channel-closed")
+	vAssert(client.nClose == 1, "client-closed-once")
+	_ = g.Close()
+	vAssert(client.nClose == 1, "second-close-harmless")
 	vReach()
 }
